@@ -109,3 +109,67 @@ pub proof fn lemma_join_no_close(v: Seq<Seq<char>>, sep: Seq<char>)
         lemma_no_close_concat(a + sep, v.last());
     }
 }
+
+// ---- `#` line comments (Python): the text is a sequence of whole lines  indentation + `#` + text-without-a-line-break + LF
+pub open spec fn hash_mark() -> Seq<char> { seq!['#'] }
+/// one `#` comment line without its line feed
+pub open spec fn hash_body(l: Seq<char>) -> bool {
+    exists|ws: Seq<char>, rest: Seq<char>| #[trigger] wit2(ws, rest) && all_tabs(ws) && no_eol(rest) && l == ws + hash_mark() + rest
+}
+pub open spec fn hash_line(l: Seq<char>) -> bool {
+    exists|ws: Seq<char>, rest: Seq<char>| #[trigger] wit2(ws, rest) && all_tabs(ws) && no_eol(rest) && l == ws + hash_mark() + rest + lf()
+}
+/// C15 (`#` comments): the text is a sequence of `#` comment lines
+pub open spec fn hash_commented(t: Seq<char>) -> bool {
+    exists|ls: Seq<Seq<char>>| #[trigger] flatten(ls) == t && forall|i: int| 0 <= i < ls.len() ==> hash_line(#[trigger] ls[i])
+}
+pub proof fn lemma_hash_body_line(l: Seq<char>)
+    requires hash_body(l)
+    ensures hash_line(l + lf())
+{
+    let (ws, rest) = choose|ws: Seq<char>, rest: Seq<char>| #[trigger] wit2(ws, rest) && all_tabs(ws) && no_eol(rest) && l == ws + hash_mark() + rest;
+    assert(wit2(ws, rest));
+    assert(l + lf() =~= ws + hash_mark() + rest + lf());
+}
+pub proof fn lemma_hash_push(t: Seq<char>, l: Seq<char>)
+    requires hash_commented(t), hash_line(l)
+    ensures hash_commented(t + l)
+{
+    let ls = choose|ls: Seq<Seq<char>>| #[trigger] flatten(ls) == t && forall|i: int| 0 <= i < ls.len() ==> hash_line(#[trigger] ls[i]);
+    lemma_flatten_push(ls, l);
+    let ls2 = ls.push(l);
+    assert forall|i: int| 0 <= i < ls2.len() implies hash_line(#[trigger] ls2[i]) by { if i < ls.len() { assert(ls2[i] == ls[i]); } }
+    assert(flatten(ls2) == t + l);
+}
+/// lines joined by LF and ended by LF: every one of them is a whole `#` comment line
+pub proof fn lemma_hash_join(v: Seq<Seq<char>>)
+    requires v.len() > 0, forall|i: int| 0 <= i < v.len() ==> hash_body(#[trigger] v[i])
+    ensures hash_commented(join(v, lf()) + lf())
+    decreases v.len()
+{
+    if v.len() == 1 {
+        lemma_hash_body_line(v[0]);
+        let ls = seq![v[0] + lf()];
+        assert(ls.drop_last() =~= Seq::<Seq<char>>::empty());
+        assert(flatten(ls.drop_last()) =~= Seq::<char>::empty());
+        assert(flatten(ls) =~= v[0] + lf());
+        assert(join(v, lf()) == v[0]);
+    } else {
+        let d = v.drop_last();
+        assert forall|i: int| 0 <= i < d.len() implies hash_body(#[trigger] d[i]) by { assert(d[i] == v[i]); }
+        lemma_hash_join(d);
+        lemma_hash_body_line(v.last());
+        lemma_hash_push(join(d, lf()) + lf(), v.last() + lf());
+        assert(join(v, lf()) + lf() =~= (join(d, lf()) + lf()) + (v.last() + lf()));
+    }
+}
+/// indentation + a marker that starts with `#` + text without a line break is the body of a `#` comment line
+pub proof fn lemma_hash_marker(m: Seq<char>, line: Seq<char>, ws: Seq<char>)
+    requires m.len() >= 1, m[0] == '#', no_eol(m), no_eol(line), all_tabs(ws)
+    ensures hash_body(ws + m + line)
+{
+    let rest = m.subrange(1, m.len() as int) + line;
+    assert(wit2(ws, rest));
+    assert(m =~= hash_mark() + m.subrange(1, m.len() as int));
+    assert(ws + m + line =~= ws + hash_mark() + rest);
+}
